@@ -36,6 +36,8 @@ var c14ValidParts = []string{
 	"directive @d2 on FIELD_DEFINITION",
 	"extend interface I { w: Int }",
 	"extend type B @d(n: 2)",
+	"type Mutation { m: Int }",
+	"type Subscription { s: A }",
 }
 
 var c14FailParts = []string{
@@ -50,13 +52,13 @@ var c14FailParts = []string{
 	"extend type Query { a: Int }",    // duplicate field through an extension
 }
 
-const c14Later = "type Late { l: Int } extend type Query { late: Late }"
+const c14Later = "type Late { l: Int } extend type Query { late: Late } type Mutation { lm: Int }"
 
 type c14Node struct{}
 
 func (n *c14Node) Resolve(field *ggql.Field, args map[string]interface{}) (interface{}, error) {
 	switch field.Name {
-	case "query", "o", "u", "late":
+	case "query", "mutation", "subscription", "o", "u", "late":
 		return n, nil
 	case "e":
 		return "X", nil
@@ -64,9 +66,9 @@ func (n *c14Node) Resolve(field *ggql.Field, args map[string]interface{}) (inter
 	return int32(3), nil
 }
 
-const c14Introspection = `{__schema{queryType{name} types{kind name fields{name type{kind name ofType{name}} args{name}} enumValues{name} possibleTypes{name} inputFields{name} interfaces{name}} directives{name locations args{name}}}}`
+const c14Introspection = `{__schema{queryType{name} mutationType{name} subscriptionType{name} types{kind name fields{name type{kind name ofType{name}} args{name}} enumValues{name} possibleTypes{name} inputFields{name} interfaces{name}} directives{name locations args{name}}}}`
 
-var c14Requests = []string{"{a e o{x}}", "{b late{l}}", "{x}", "{g(in:{f:1})}", "{g(in:{h:1})}"}
+var c14Requests = []string{"{a e o{x}}", "{b late{l}}", "{x}", "{g(in:{f:1})}", "{g(in:{h:1})}", "mutation{m}", "mutation{lm}"}
 
 type c14Obs struct {
 	sdl    string
@@ -81,7 +83,7 @@ func c14Observe(root *ggql.Root) *c14Obs {
 	for _, r := range c14Requests {
 		o.res = append(o.res, root.ResolveString(r, "", nil))
 	}
-	for _, name := range []string{"Query", "A", "N", "A2", "Late", "Z1", "Z2", "V", "d", "d2", "__Bad"} {
+	for _, name := range []string{"Query", "A", "N", "A2", "Late", "Z1", "Z2", "V", "d", "d2", "__Bad", "Mutation", "Subscription"} {
 		o.lookup = append(o.lookup, root.GetType(name) != nil)
 	}
 	return o
